@@ -220,6 +220,18 @@ func main() {
 		sorts(c, sh, "sort-7", sortAlpha7, runlib.Pick(c, 6, 7))
 		sorts(c, sh, "sort-3", sortAlpha3, runlib.Pick(c, 12, 14))
 
+		// Addresses whose numeric distance is around 2^31, 2^32 and 2^63 (a
+		// comparison by the sign of a difference wraps there): every slice of
+		// length <= 4 (5 thorough).
+		extremes := []netip.Addr{
+			netip.MustParseAddr("2001:db8::1"), netip.MustParseAddr("2001:db8::8000:0:0:1"),
+			netip.MustParseAddr("2001:db8::7fff:ffff:ffff:ffff"), netip.MustParseAddr("2001:db8::ffff:ffff:ffff:ffff"),
+			netip.MustParseAddr("2001:db8:0:1::"), netip.MustParseAddr("8000::"), netip.MustParseAddr("7fff:ffff:ffff:ffff::1"),
+			netip.MustParseAddr("0.0.0.1"), netip.MustParseAddr("128.0.0.1"), netip.MustParseAddr("127.255.255.255"),
+			netip.MustParseAddr("255.255.255.255"), {},
+		}
+		sorts(c, sh, "sort-extremes", extremes, runlib.Pick(c, 4, 5))
+
 		// Long slices (past the insertion-sort and ninther thresholds of
 		// slices.SortFunc): a pool of distinct addresses of every kind in
 		// several arrangements and every rotation of them.
